@@ -90,6 +90,44 @@ func (r *runner) exec(op *simrt.Op, blocked map[ident]bool) *simrt.Violation {
 	switch op.K {
 	case "blacklist":
 		return nil
+	case "forge":
+		// The body of an earlier, honestly signed transaction that is neither pooled
+		// nor on the chain any more, now carrying another account's public key and
+		// junk signature bytes. The transaction hash does not cover the signature, so
+		// this copy has the hash the pool has seen (and verified) before.
+		of := w.ref(op.Int(0))
+		if of == nil || of.group || len(of.members) != 1 || !of.members[0].sigOK || of.entry.GetSignature() == nil {
+			return nil
+		}
+		w.mu.Lock()
+		chained := w.onChain[of.hash] > 0
+		w.mu.Unlock()
+		if w.inPool[of.hash] || chained {
+			return nil
+		}
+		f := types.Clone(of.entry).(*types.Transaction)
+		victim := acc(op.Int(1))
+		junk := make([]byte, 65)
+		for i := range junk {
+			junk[i] = byte(37*i + int(op.Int(1)) + 1)
+		}
+		f.Signature = &types.Signature{Ty: of.entry.Signature.Ty, Pubkey: victim.btcPriv.PubKey().Bytes(), Signature: junk}
+		if string(f.Hash()) != of.hash {
+			simrt.Failf("the forged copy has another hash")
+		}
+		ok, msg := w.submit(f)
+		r.ctx.Probe("forged_copy_of_departed_tx_submitted")
+		r.ctx.Logf("forged copy of #%d -> %v %s", of.id, ok, msg)
+		_, appeared, _ := w.observe(tBefore)
+		for _, h := range appeared {
+			if h == of.hash {
+				return r.ctx.Violate("admitted-unacceptable", "signature/same-body-other-signature", "object #%d %s had left the pool; a copy of its body carrying the public key of %s and junk signature bytes (same transaction hash) was submitted, answered ok=%v %q, and is in the pool now", of.id, hx(of.hash), victim.btcAddr, ok, msg)
+			}
+		}
+		if ok {
+			return r.ctx.Violate("admitted-unacceptable", "signature/same-body-other-signature/reply-ok", "a copy of object #%d %s with another public key and junk signature bytes was answered OK", of.id, hx(of.hash))
+		}
+		return nil
 	case "tx", "group", "twin":
 		b := w.buildOp(op)
 		if b == nil {
